@@ -113,6 +113,7 @@ theorem sim_raw {lim : Limits} {K : Nat} {e eX eX' : Enf} {k : Nat} {r : Raw} (h
     have hme := h.mergeKeys
     have hco := h.containers
     cases br <;> simp only [BreachSpec, h.lim_e] at hs
+    case ratio a n => rw [h.pd_e] at hs; cases hs.1
     case events n => omega
     case aliases n => rw [hna] at hs; exact absurd hs.1 (by simp)
     case anchors n => omega
